@@ -405,10 +405,72 @@ pub async fn cmd_stall(args: Vec<String>) -> Result<()> {
         log.emit("done", json!({"panics": PANICS.load(Ordering::SeqCst)}));
         drop(dead_sub);
     }
+    // the same for a stalled request/reply topic: a bound replier that never reads, a requestor
+    // flooding it, then requestor and replier registrations queueing up behind the blocked router
+    {
+        let run = 3u64;
+        log.emit("case", json!({"run": run, "order": "reqrep_stall", "regs": nreg}));
+        let topic_a = format!("/vstall{run}/aaa");
+        let client = connect_client(env.server.addr, &env.certs, BackoffStrategy::constant().with_max_attempts(0)).await?;
+        let raw = raw_connect_trusted(env.server.addr, &env.certs).await?;
+        let mut dead_rep = raw_stream(&raw).await?;
+        dead_rep.send(reg_frame("rep", TopicName::try_from(topic_a.as_str())?)).await?;
+        let _ = first_reply(&mut dead_rep).await;
+        let mut req = client
+            .requestor(&topic_a)
+            .with_request_encoder(BytesCodec)
+            .with_reply_decoder(BytesCodec)
+            .with_request_timeout(Duration::from_millis(100))?
+            .open()
+            .await?;
+        let mut sent = 0;
+        for _ in 0..12 {
+            match tokio::time::timeout(Duration::from_secs(2), req.request(vec![9u8; 900_000])).await {
+                Ok(_) => sent += 1,
+                Err(_) => break,
+            }
+        }
+        log.emit("flood", json!({"sent": sent}));
+        let mut keep = vec![];
+        let mut answered = 0;
+        let mut left = nreg;
+        let mut k = 0;
+        while left > 0 {
+            let conn = raw_connect_trusted(env.server.addr, &env.certs).await?;
+            for _ in 0..60.min(left) {
+                k += 1;
+                let mut st = raw_stream(&conn).await?;
+                st.send(reg_frame(if k % 2 == 0 { "rep" } else { "req" }, TopicName::try_from(topic_a.as_str())?)).await?;
+                if let Ok((r, _)) = tokio::time::timeout(Duration::from_millis(300), first_reply(&mut st)).await {
+                    if r == "ok" {
+                        answered += 1;
+                    }
+                }
+                keep.push(st);
+            }
+            left -= 60.min(left);
+            keep.push(raw_stream(&conn).await?);
+        }
+        log.emit("queued_registrations", json!({"attempted": nreg, "answered_ok": answered}));
+        let client_b = connect_client(env.server.addr, &env.certs, BackoffStrategy::constant().with_max_attempts(0)).await?;
+        for (t, pattern) in [(format!("/vstall{run}/bbb"), "pubsub"), (format!("/vstall{run}/ccc"), "reqrep")] {
+            let t0 = std::time::Instant::now();
+            let r = tokio::time::timeout(Duration::from_secs(30), probe(&client_b, &t, pattern)).await;
+            let res = match r {
+                Ok(Ok(())) => "ok".to_string(),
+                Ok(Err(e)) => format!("fail: {e}"),
+                Err(_) => "timeout_30s".to_string(),
+            };
+            log.emit("other_topic_roundtrip", json!({"res": res, "ms": t0.elapsed().as_millis() as u64}));
+        }
+        log.emit("done", json!({"panics": PANICS.load(Ordering::SeqCst)}));
+        drop(dead_rep);
+        std::mem::forget(keep);
+    }
     selium_server::verif::set_observer(None);
     env.log.flush();
     let _ = std::fs::remove_dir_all(&env.certs);
-    println!("{}", json!({"runs": 2, "events": env.log.lines()}));
+    println!("{}", json!({"runs": 3, "events": env.log.lines()}));
     Ok(())
 }
 
@@ -448,11 +510,14 @@ pub async fn cmd_tls(args: Vec<String>) -> Result<()> {
         };
         let topic = format!("/vtls/case{k}");
         let (connected, registered, detail) = if via == "raw" {
-            let ident = match &ident_dir {
-                Some(d) => Some((read_der(d.join("client/localhost.der"))?, read_der(d.join("client/localhost.key.der"))?)),
-                None => None,
+            let trusted_public = read_der(set1.join("client/localhost.der"))?;
+            let ident = match (cid, &ident_dir) {
+                ("borrowed_chain_self", _) => Some((vec![read_der(ss_dir.join("client/localhost.der"))?, trusted_public], read_der(ss_dir.join("client/localhost.key.der"))?)),
+                ("borrowed_chain_other", _) => Some((vec![read_der(set2.join("client/localhost.der"))?, trusted_public], read_der(set2.join("client/localhost.key.der"))?)),
+                (_, Some(d)) => Some((vec![read_der(d.join("client/localhost.der"))?], read_der(d.join("client/localhost.key.der"))?)),
+                _ => None,
             };
-            match tokio::time::timeout(Duration::from_secs(10), raw_connect(addr, &ca1, ident)).await {
+            match tokio::time::timeout(Duration::from_secs(10), raw_connect_chain(addr, &ca1, ident)).await {
                 Ok(Ok(conn)) => {
                     // with TLS 1.3 the client may consider the handshake done before the server has
                     // judged its certificate: the registration decides
